@@ -380,6 +380,26 @@ bad_delegate_error2(has_traits_object *obj, PyObject *name)
 }
 
 /*-----------------------------------------------------------------------------
+|  Raise an undefined delegate error (a trait of kind 'delegate' on which
+|  'delegate()' has not been called):
++----------------------------------------------------------------------------*/
+
+static int
+undefined_delegate_error(has_traits_object *obj, PyObject *name)
+{
+    if (!PyUnicode_Check(name)) {
+        return invalid_attribute_error(name);
+    }
+
+    PyErr_Format(
+        DelegationError,
+        "The '%.400U' attribute of a '%.50s' object"
+        " is a delegate trait whose delegate has not been defined.",
+        name, Py_TYPE(obj)->tp_name);
+    return -1;
+}
+
+/*-----------------------------------------------------------------------------
 |  Raise a delegation recursion error:
 +----------------------------------------------------------------------------*/
 
@@ -2024,6 +2044,11 @@ getattr_delegate(trait_object *trait, has_traits_object *obj, PyObject *name)
     PyObject *result;
     PyObject *dict = obj->obj_dict;
 
+    if ((trait->delegate_name == NULL) || (trait->delegate_attr_name == NULL)) {
+        undefined_delegate_error(obj, name);
+        return NULL;
+    }
+
     if ((dict == NULL)
         || ((delegate = PyDict_GetItem(dict, trait->delegate_name)) == NULL)) {
         // Handle the case when the delegate is not in the instance dictionary
@@ -2579,6 +2604,12 @@ setattr_delegate(
     Py_INCREF(daname);
     delegate = obj;
     for (i = 0;;) {
+        if ((traitd->delegate_name == NULL)
+            || (traitd->delegate_attr_name == NULL)) {
+            Py_DECREF(daname);
+            return undefined_delegate_error(obj, name);
+        }
+
         dict = delegate->obj_dict;
         if ((dict != NULL)
             && ((temp_delegate = (has_traits_object *)PyDict_GetItem(
